@@ -36,6 +36,13 @@ def firstMarkerAt (text : Bytes) (startIndex : Nat) : List Bytes → PE (Option 
   | m :: ms => do
     if ← startsAtIndexWith text startIndex m then pure (some m) else firstMarkerAt text startIndex ms
 
+/-- `inHostsComment ruleText idx` (repair of D16, /repo d2e67f2): `strings.IndexByte` only, no
+    index expression that could panic. -/
+def inHostsComment (text : Bytes) (idx : Nat) : Bool :=
+  match indexByte text (ch '#') with
+  | some commentIdx => decide (commentIdx > 0) && decide (commentIdx < idx)
+  | none => false
+
 /-- `findCosmeticRuleMarker` over given first characters and markers (run-time order):
     `none` is the Go result `-1, ""`. -/
 def findMarkerLoop (markers : List Bytes) (text : Bytes) : (firstChars : Bytes) → PE (Option (Nat × Bytes))
@@ -51,6 +58,8 @@ def findMarkerLoop (markers : List Bytes) (text : Bytes) : (firstChars : Bytes) 
           pure (p == ch ' ' || p == ch '\t')
         else pure false
       if skip then findMarkerLoop markers text rest
+      -- a marker inside a hosts-file comment: `0.0.0.0 example.org # costs $$5`
+      else if inHostsComment text startIndex then findMarkerLoop markers text rest
       else
         match ← firstMarkerAt text startIndex markers with
         | some m => pure (some (startIndex, m))
